@@ -204,6 +204,7 @@ class Analyzer:
         self.funcs = {n.name: n for n in module_tree.body if isinstance(n, ast.FunctionDef)}
         self.consts = dict(constants)
         self.problems: list[Problem] = []
+        self.call_args: dict = {}
         self.reached: set[int] = set()  # id(stmt) reached
         self.depth = 0
         self.cell = ""
@@ -253,6 +254,9 @@ class Analyzer:
                 env = dict(env)
                 for x, xv in zip(st.targets[0].elts, vals):
                     env[x.id] = xv
+                # order relations follow the values into their new names (simultaneous assignment)
+                ren = {x.id: v.id for x, v in zip(st.targets[0].elts, st.value.elts) if isinstance(v, ast.Name)}
+                rel = self._rel_after_copy(rel, ren)
                 continue
             if isinstance(st, ast.Assign) and len(st.targets) == 1 and isinstance(st.targets[0], ast.Name) and isinstance(st.value, ast.IfExp):
                 v = st.value
@@ -279,11 +283,28 @@ class Analyzer:
             if isinstance(st, ast.Assign) and len(st.targets) == 1 and isinstance(st.targets[0], ast.Name):
                 env = dict(env)
                 env[st.targets[0].id] = self._ev(fn, st.value, env, rel)
+                rel = self._rel_after_copy(rel, {st.targets[0].id: st.value.id} if isinstance(st.value, ast.Name) else {st.targets[0].id: None})
                 continue
             if isinstance(st, ast.Raise):
                 return False
             raise AnalysisError(f"{fn.name}: statement outside the interval grammar: {ast.unparse(st)[:60]}")
         return True
+
+    @staticmethod
+    def _rel_after_copy(rel, ren):
+        """Order facts after `new = old` for every (new, old) in ren (old None: new is an unrelated value):
+        facts about a re-bound name are dropped, then every fact about a source is repeated for its copy."""
+        out = {k: v for k, v in rel.items() if k[0] not in ren and k[1] not in ren}
+        src = {n: o for n, o in ren.items() if o is not None}
+
+        def names_for(x):
+            return [x] * (x not in ren) + [n for n, o in src.items() if o == x]
+
+        for (a, b), k in rel.items():
+            for a2 in names_for(a):
+                for b2 in names_for(b):
+                    out[(a2, b2)] = k
+        return out
 
     # ------------------------------------------------------------------
     def _const(self, e):
@@ -453,6 +474,7 @@ class Analyzer:
                 order = None
                 if len(e.args) >= 2 and all(isinstance(a, ast.Name) for a in e.args[:2]):
                     order = rel.get((e.args[0].id, e.args[1].id)) or {"<": ">", ">": "<", "==": "=="}.get(rel.get((e.args[1].id, e.args[0].id)))
+                self.call_args.setdefault((fn.name, name), []).append((self.cell, ast.unparse(e), list(args)))
                 r, isnan = self.call(name, args, order)
                 if isnan:
                     self._problem("nan", fn, e, f"`{ast.unparse(e)}` is called with arguments {args!r} for which {name} returns NaN by definition: the NaN propagates into the result")
